@@ -478,7 +478,7 @@ func (f *Fam) Exec(op string) (obs string, fails []common.Failure) {
 		if aid >= f.nextArm {
 			f.nextArm = aid + 1
 		}
-		return "armor", nil
+		return "armor", fails
 	case "kb.import":
 		arm, ok := f.armors[k]
 		if !ok {
